@@ -481,6 +481,12 @@ func scenC11(r *Run, job *Job) {
 				r.Sleep(10 * time.Millisecond)
 				r.Settle()
 			}
+			if deadlineW != nil && !deadlineW.returned && r.Now() >= deadlineAt && r.HeldNow() {
+				// a deliberately descheduled goroutine may be sitting on the gate's lock (parked on its way into the
+				// wait): the waiter that gave up at its deadline gets through once that goroutine runs again
+				r.ReleaseHolds()
+				r.Settle()
+			}
 			if deadlineW != nil && !deadlineW.returned && r.Now() >= deadlineAt {
 				r.Failf("C11.deadline-ignored", "waiter %d is still parked %v after its deadline", deadlineW.id, r.Now()-deadlineAt)
 			}
